@@ -26,13 +26,16 @@ ASSUMPTIONS = ['ring faults inside ATOMISTIC fragment SMILES are parsed by pysmi
                'a node without any edge of order >= 1 counts as virtual (documented) and is not a fault (c) target']
 MECHANISMS = [('cgsmiles.read_cgsmiles', 'read_cgsmiles'), ('cgsmiles.dialects', '_parse_dialect_string'),
               ('cgsmiles.dialects', 'check_and_cast_types'), ('cgsmiles.resolve', 'MoleculeResolver.resolve_disconnected_molecule')]
+FINDING_FEATURES = {'annot.nonnumeric_value_before_duplicate_key': 'nonnumeric_value_then_same_key_again'}
 EXHAUSTIVE = {'quick': False, 'thorough': False}
 SIZES = {'quick': 480, 'thorough': 12000}
 BAD = {
     'base': {'d': ['w=a=b', 'q=1=2', 'k=v=w', '0;w=1=1'], 'e': ['0;1;2', '0;1;2;3', '1;1;1;k=v', 'k=v;1;2;3', 'q=1;2;3;4', '1;k=v;2;3'],
-             'f': ['q=abc', 'abc', '0;x1', 'w=1,5', 'w=', 'q=1e', 'q=0;w=one', 'q=1 000', 'w=72 Da', 'q=- 1', 'q=(1)']},
+             'f': ['q=abc', 'abc', '0;x1', 'w=1,5', 'w=', 'q=1e', 'q=0;w=one', 'q=1 000', 'w=72 Da', 'q=- 1', 'q=(1)',
+                   # the faulty entry repeats a key the annotation already carries with a proper value in front of it
+                   'q=1;q=abc', 'w=2.5;w=heavy']},
     'frag': {'d': ['w=a=b', 'x=R=S', 'k=v=w', '1;x=R=R'], 'e': ['1;R;2', '0.5;S;1;2', '1;R;S;k=v', 'k=v;0.5;R;8', 'x=R;0.5;7;8', '1;k=v;S;R'],
-             'f': ['w=abc', 'abc', 'w=1.5.2', 'w=', 'abc;R', 'x=R;w=heavy', 'w=1 000', 'w=72 Da']},
+             'f': ['w=abc', 'abc', 'w=1.5.2', 'w=', 'abc;R', 'x=R;w=heavy', 'w=1 000', 'w=72 Da', 'w=16;w=heavy', 'w=1;x=R;w=abc']},
 }
 EXPECT = {'c_fresh': 'SyntaxError', 'c_other_level': 'SyntaxError', 'a': 'SyntaxError', 'b': 'SyntaxError', 'c': 'SyntaxError', 'd': 'SyntaxError', 'e': 'SyntaxError', 'f': 'TypeError'}
 
@@ -166,6 +169,16 @@ def atom_annotation_variants(rng, tokens, g, n_per=1):
 def cases(seed, tier, shard, nshards):
     rng = random.Random(f'{seed}:C20:{tier}:{shard}')
     made = 0
+    # confirmation stream of an open finding: the non-numeric value comes FIRST and the same key follows with a proper value
+    for _ in range(3 if tier == 'quick' else 40):
+        names = [rng.choice(['A', 'B', 'PEO']) for _ in range(rng.randint(1, 6))]
+        k = rng.randrange(len(names))
+        key = rng.choice('qw')
+        bad = '%s=%s;%s=%s' % (key, rng.choice(['abc', 'one', '1,5']), key, rng.choice(['1', '0.5', '2']))
+        valid = '{' + ''.join('[#%s]' % n_ for n_ in names) + '}'
+        faulted = '{' + ''.join('[#%s%s]' % (n_, ';' + bad if i == k else '') for i, n_ in enumerate(names)) + '}'
+        yield dict(kind='base', valid=valid, variants=[dict(fault='f', pos=position_class(k, len(names), 0, False), level='base', api='read_cgsmiles', string=faulted)],
+                   features=['nonnumeric_value_then_same_key_again'])
     while made < SIZES[tier] // nshards:
         r = rng.random()
         if r < 0.45:
